@@ -30,14 +30,16 @@ class VmIo:
                 logging.error(
                     "print command internal error: {}".format(inst.param0))
 
-    def reset(self):
+    @inject(Output)
+    def reset(self, output):
+        # Nothing is left over from an earlier run, not even an open line.
         self._unnamed.clear()
+        output.flush()
 
     @inject(Output)
     def flush(self, output):
         for remaining in self._unnamed:
             output.out(remaining)
-        output.flush()
         self.reset()
 
     @inject(Output)
